@@ -4,6 +4,16 @@ From Coq Require Import List Arith Bool Lia.
 From Cfg Require Import Model.Keyed.
 Import ListNotations.
 
+Ltac split_step H :=
+  repeat match type of H with
+         | (if ?c then _ else _) = _ => destruct c
+         | match ?x with _ => _ end = _ => destruct x
+         end; inversion H; subst.
+Ltac split_in Hin :=
+  repeat match type of Hin with
+         | context [match ?x with _ => _ end] => destruct x
+         end.
+
 Section KeyedProofs.
   Variable keep : bool.
   Variable gx : bool.
@@ -113,11 +123,7 @@ Section KeyedProofs.
   Proof.
     intros s a s' ps k v base Hsv [HC HB] H Hin.
     destruct a as [|k0 fresh|k0 others|k0|i bv prev|k0|k0 v0|i dp1|i|k0 others|]; cbn [Keyed.step] in H;
-      try (repeat match type of H with
-                  | (if ?c then _ else _) = _ => destruct c
-                  | match ?x with _ => _ end = _ => destruct x
-                  end; inversion H; subst; cbn in Hin; intuition discriminate).
-    Show.
+      try (split_step H; split_in Hin; cbn in Hin; intuition discriminate).
     destruct (nth_error (s_bc s) i) as [b|] eqn:En; [|inversion H; subst; destruct Hin].
     unfold deliver in H. cbn [s_conn s_held] in H.
     destruct (s_conn s (bc_key b)) as [ks|] eqn:Ec; [|inversion H; subst; destruct Hin].
@@ -173,10 +179,7 @@ Section KeyedProofs.
   Proof.
     intros s a s' ps k v H Hin.
     destruct a as [|k0 fresh|k0 others|k0|i bv prev|k0|k0 v0|i dp1|i|k0 others|]; cbn [Keyed.step] in H;
-      try (repeat match type of H with
-                  | (if ?c then _ else _) = _ => destruct c
-                  | match ?x with _ => _ end = _ => destruct x
-                  end; inversion H; subst; cbn in Hin; destruct Hin as [Hin|[b0 Hin]]; cbn in Hin; intuition discriminate).
+      try (split_step H; destruct Hin as [Hin|[b0 Hin]]; split_in Hin; cbn in Hin; intuition discriminate).
     - right. destruct (negb (s_sub s)); [inversion H; subst; destruct Hin as [[]|[b0 []]]|].
       match type of H with (if ?c then _ else _) = _ => destruct c end; inversion H; subst s' ps; clear H.
       + destruct Hin as [[Hin|[]]|[b0 [Hin|[]]]]; inversion Hin; subst. eauto.
@@ -188,12 +191,12 @@ Section KeyedProofs.
   Lemma untracked_after : forall s a s' ps k,
     step s a = (s', ps) ->
     (exists o, a = AUntrack k o) \/ (exists o, a = ARevoke k o) \/ a = APollRemoved k \/ a = AEpochFlip ->
-    s_conn s' k = None \/ (s' = s /\ ps = []).
+    s_conn s' k = None \/ (s_conn s' k = s_conn s k /\ ps = []).
   Proof.
     intros s a s' ps k H [[o ->]|[[o ->]|[->| ->]]]; cbn [Keyed.step] in H.
-    - destruct (s_conn s k); inversion H; subst; [left; cbn; apply upd_same|right; auto].
-    - destruct (s_conn s k); inversion H; subst; [left; cbn; apply upd_same|right; auto].
-    - destruct (s_ent s k); inversion H; subst; [left; cbn; apply upd_same|right; auto].
+    - destruct (s_conn s k) eqn:E; inversion H; subst; [left; cbn; apply upd_same|right; split; [rewrite E|]; reflexivity].
+    - destruct (s_conn s k) eqn:E; inversion H; subst; [left; cbn; apply upd_same|right; split; [rewrite E|]; reflexivity].
+    - destruct (s_ent s k) eqn:E; inversion H; subst; [left; cbn; apply upd_same|right; split; reflexivity].
     - inversion H; subst. left. reflexivity.
   Qed.
 
@@ -229,7 +232,7 @@ Section KeyedProofs.
   Proof.
     induction l as [|a t IH]; intros s s' pss Hsv HI H; cbn in H; [inversion H; subst; auto|].
     destruct (step s a) as [s1 p] eqn:E1. destruct (run s1 t) as [s2 ps] eqn:E2. inversion H; subst.
-    eapply IH; eauto. eapply step_inv; eauto.
+    apply (IH s1 s' ps Hsv); [eapply step_inv; eauto|exact E2].
   Qed.
 
   (* every delta delivered along any schedule applies to what the client holds at that moment *)
